@@ -101,3 +101,38 @@ def witness_merge_step(r):
     e = r["expected"]
     ok = len(e["key"]) == n2 and np.array_equal(np.array(e["key"], dtype=np.int64), coo.key[:n2]) and np.allclose(np.array(e["val"], dtype=float), coo.val[:n2], rtol=1e-5)
     return {"match": bool(ok), "got": {"key": coo.key[:n2].tolist(), "val": coo.val[:n2].tolist()}}
+
+
+class _Sized(list):
+    """a document of which only the length matters"""
+    def __init__(self, n):
+        self.n = n
+
+    def __len__(self):
+        return self.n
+
+
+def _chunks(r):
+    from vectorizers.base_cooccurrence_vectorizer import BaseCooccurrenceVectorizer
+    from vectorizers import MultiSetCooccurrenceVectorizer
+    inp, p = r["inputs"], r["params"]
+    sizes = [int(x) for x in inp["sizes"]]
+    nt = int(inp["n_threads"])
+    if p["kind"] == "multiset":
+        data = [[_Sized(n)] for n in sizes]
+        return MultiSetCooccurrenceVectorizer._generate_chunk_boundaries(None, data, nt), len(sizes)
+    return BaseCooccurrenceVectorizer._generate_chunk_boundaries(None, [_Sized(n) for n in sizes], nt), len(sizes)
+
+
+def replay_chunks(r):
+    try:
+        ch, n = _chunks(r)
+    except Exception as e:
+        return {"violation": True, "detail": "%s: %s" % (type(e).__name__, e)}
+    bad = (not ch) or ch[0][0] != 0 or ch[-1][1] != n or any(b != c for (a, b), (c, d) in zip(ch, ch[1:])) or any(not (0 <= a <= b <= n) for a, b in ch)
+    return {"violation": bool(bad), "detail": "chunks %s for %d documents" % (ch, n)}
+
+
+def witness_chunks(r):
+    ch, n = _chunks(r)
+    return {"match": [list(map(int, c)) for c in ch] == [list(map(int, c)) for c in r["expected"]["chunks"]], "got": [list(map(int, c)) for c in ch]}
